@@ -41,13 +41,13 @@ def run(pid, tier):
     streams = pc.gen(rep, 'C08', {}, nparts=8, lemmas=('Lemmas', 'L_Progress', 'L_Chunk'), timeout=1500)
     rep.cov['streams_enumerated_by_tlc'] = len(streams)
     if tier == 'quick':
-        # the quick tier executes every stream that has a block, a string or leading white space, and a seeded third of the rest
+        # the quick tier executes every stream that has a block, a string or leading white space, and a seeded part of the rest
         def special(s):
             b = bytes(s['chunks'][0])
             return b'#' in b or b'"' in b or b"'" in b or b.startswith((b' ', b'\t')) or b'\n ' in b or b'\n\t' in b
         def stale(s):       # a long number first: what it leaves behind in the buffer must not reach the next message
             return bytes(s['chunks'][0]).startswith(b'ECHO 98765')
-        streams = [s for i, s in enumerate(streams) if len(s['chunks'][0]) <= 30 and ((special(s) and i % 5 == lib.seed() % 5) or i % 16 == lib.seed() % 16 or stale(s))]
+        streams = [s for i, s in enumerate(streams) if len(s['chunks'][0]) <= 30 and ((special(s) and i % 7 == lib.seed() % 7) or i % 24 == lib.seed() % 24 or stale(s))]
     scen, refidx, meta = [], [], []
     for s in streams:
         st = s['chunks'][0]
